@@ -333,56 +333,9 @@ PPL::Dense_Row::init(const Sparse_Row& row) {
 
 PPL::Dense_Row&
 PPL::Dense_Row::operator=(const Sparse_Row& row) {
-  if (size() > row.size()) {
-    // TODO: If the shrink() is modified to reallocate a smaller chunk,
-    // this can be optimized.
-    shrink(row.size());
-    Sparse_Row::const_iterator itr = row.begin();
-    const Sparse_Row::const_iterator itr_end = row.end();
-    for (dimension_type i = 0; i < impl.size; ++i) {
-      // Computes (*this)[impl.size] = row[impl.size].
-      if (itr != itr_end && itr.index() == i) {
-        impl.vec[impl.size] = *itr;
-        ++itr;
-      }
-      else {
-        impl.vec[impl.size] = Coefficient_zero();
-      }
-    }
-  }
-  else {
-    if (capacity() >= row.size()) {
-      // size() <= row.size() <= capacity().
-      Sparse_Row::const_iterator itr = row.begin();
-      const Sparse_Row::const_iterator itr_end = row.end();
-      for (dimension_type i = 0; i < impl.size; ++i) {
-        // The following code is equivalent to (*this)[i] = row[i].
-        if (itr != itr_end && itr.index() == impl.size) {
-          new(&impl.vec[impl.size]) Coefficient(*itr);
-          ++itr;
-        }
-        else {
-          new(&impl.vec[impl.size]) Coefficient();
-        }
-      }
-      // Construct the additional elements.
-      for ( ; impl.size != row.size(); ++impl.size) {
-        // Constructs (*this)[impl.size] with row[impl.size].
-        if (itr != itr_end && itr.index() == impl.size) {
-          new(&impl.vec[impl.size]) Coefficient(*itr);
-          ++itr;
-        }
-        else {
-          new(&impl.vec[impl.size]) Coefficient();
-        }
-      }
-    }
-    else {
-      // Reallocation is required.
-      destroy();
-      init(row);
-    }
-  }
+  // Build the new row aside and swap it in.
+  Dense_Row tmp(row);
+  m_swap(tmp);
   PPL_ASSERT(size() == row.size());
   PPL_ASSERT(OK());
 
